@@ -662,7 +662,7 @@ subroutine viscosity(nc, T, P, mass, Mol_wt, Pc, Tc, Vc, omega, delta, Aij, &
     ! Get the density of methane at TTc0/Tc_mix and PPc0/Pc_mix
     call density(1, T * Tc0(1) / Tc_mix, P * Pc0(1) / Pc_mix, [1.0D0], M0, &
         &        Pc0, Tc0, Vc0, omega0, delta0, Aij, Bij, delta_groups0, &
-        &        -1, C_pen, C_pen_T, rho0)
+        &        -1, [0.0D0], [0.0D0], rho0)
     
     ! Compute equation (10.27)
     rho_r(:,1) = rho0(:,1) / rho_c0
@@ -691,7 +691,7 @@ subroutine viscosity(nc, T, P, mass, Mol_wt, Pc, Tc, Vc, omega, delta, Aij, &
         ! weight in kg/mol
         call density(1, T0(i), P0(i), [1.0D0], M0*1.0D-3, Pc0, Tc0, Vc0, &
             &        omega0, delta0, Aij, Bij, delta_groups0, -1, &
-			&        C_pen, C_pen_T, rho0)
+			&        [0.0D0], [0.0D0], rho0)
         
         ! Compute equation (10.10)
         theta(:,1) = (rho0(:,1) - rho_c0) / rho_c0
